@@ -111,7 +111,7 @@ class Clock:
 
     def __init__(self, steps):
         self.steps = list(steps)
-        self.now = 1000.0
+        self.now = 0.0
 
     def __call__(self):
         if self.steps:
@@ -177,7 +177,8 @@ def engine_calls(fi: bool, fm: bool, fs: bool, upper: bool, other: bool, no_flag
         _restore(saved)
     for (what, has, val) in stub.log:
         assert has and val is not None, "%s reaches a regular-expression engine (%s) without a timeout" % (name, what)
-        assert 0 < val <= 0.1, "%s passes a timeout that is not a small positive number (%s)" % (name, what)
+        # (the regex module treats 0 as "expire at once" and a NEGATIVE value as "no timeout")
+        assert 0 <= val <= 0.1, "%s passes a timeout that is negative or not small (%s)" % (name, what)
     assert len(stub.log) <= 2, "%s enters the regex engine an unbounded number of times (each with a fresh timeout)" % name
     if name == 'match':
         assert r is None or isinstance(r, str)
